@@ -338,6 +338,14 @@ def run(chk):
     flags = [n for n in fx.cfg.nodes if n.kind == "stmt" and isinstance(n.ast, ast.Assign) and src(n.ast.targets[0]) == "opened_here" and folder.try_fold(n.ast.value, Scope(xo.mod), None) is True]
     tries = [n for n in own_nodes(xo.node) if isinstance(n, ast.Try) and n.finalbody]
     ok = len(tries) == 1 and any(isinstance(s_, ast.If) and src(s_.test) == "opened_here" and any(isinstance(c, ast.Call) and dotted(c.func) == "dest.close" for c in ast.walk(s_)) for s_ in tries[0].finalbody)
+    # a failing close() is a failing export: the tail of the document is flushed there, so its error may not be swallowed
+    for tr_ in [n for n in ast.walk(xo.node) if isinstance(n, ast.Try)]:
+        if any(isinstance(c, ast.Call) and (dotted(c.func) or "").endswith(".close") for b_ in tr_.body for c in ast.walk(b_)):
+            for h_ in tr_.handlers:
+                if not any(isinstance(x, ast.Raise) for x in ast.walk(h_)):
+                    chk.bad("R6", f"{OD}:export_od | an error of close() reaches the caller", xo.loc(h_),
+                            f"`except {src(h_.type) if h_.type is not None else ''}` around close() completes normally: buffered text is written by close(), so a full disk or a revoked "
+                            f"file leaves a truncated document while export_od reports success")
     chk.check(ok and len(flags) == 1 and all(any(x is o.ast for b in tries[0].body for x in ast.walk(b)) for o in opens), "R6", f"{OD}:export_od | what it opens it closes", xo.loc(),
               "the file opened by export_od is not closed in a finally clause guarded by opened_here")
     for o in opens:
